@@ -58,7 +58,7 @@ def explore(ctx):
     sys.modules.pop(CANARY, None)
     G.TAGS.append('!!python/module:' + CANARY)
     G.TAGS.append('!!python/object/new:' + CANARY + '.rgb_to_hsv')
-    cases = []
+    cases = LC.CaseBuffer(ctx)
     try:
         def has_open(spec):
             if ctx.rng.random() < 0.3:
